@@ -199,3 +199,26 @@ contract(U + "EndStmtBase.match",
     raises={"*": {}},
     serves=["C08"],
 )
+
+# U13: BracketBase.match - "<left> [ content ] <right>" with symmetric bracket strings (C02: the content is handed on whole)
+BN = "brackets.replace(' ', '')"
+SS = "string.strip()"
+contract(U + "BracketBase.match",
+    types=dict(brackets="str", cls="cls?", string="str", require_cls="bool"),
+    defaults=dict(require_cls=True),
+    returns="tuple[str,ref:Base?,str]?",
+    modifies=["rule_evals"],
+    calls={"cls": "proto:operand_rule"},
+    ensures={
+        "brackets_are_the_two_halves": "implies(result is not None, len(" + BN + ") > 0 and len(" + BN + ") % 2 == 0 and "
+                                       "nonnull(result)[0] == " + BN + "[:len(" + BN + ") // 2] and nonnull(result)[2] == " + BN + "[len(" + BN + ") // 2:])",
+        "text_is_enclosed": "implies(result is not None, " + SS + ".startswith(nonnull(result)[0]) and " + SS + ".endswith(nonnull(result)[2]) and "
+                            "len(" + SS + ") >= len(" + BN + "))",
+        "whole_content_to_the_rule": "implies(result is not None and nonnull(result)[1] is not None, cls is not None and "
+                                     "rule_text(nonnull(nonnull(result)[1])) == " + SS + "[len(" + BN + ") // 2:len(" + SS + ") - len(" + BN + ") // 2].lstrip())",
+        "no_content_only_if_empty": "implies(result is not None and nonnull(result)[1] is None, "
+                                    + SS + "[len(" + BN + ") // 2:len(" + SS + ") - len(" + BN + ") // 2].lstrip() == '')",
+    },
+    raises={"*": {}},
+    serves=["C02", "C08"],
+)
